@@ -31,7 +31,8 @@ def lockrace : String :=
   let show1 : Option (Pcore.Lockset.Access × Option Pcore.Lockset.Access) → String
     | none => "none"
     | some (a, none) => "undisciplined: " ++ accStr a
-    | some (a, some b) => "race: " ++ accStr a ++ " || " ++ accStr b
+    | some (a, some b) => "race: " ++ accStr a ++ " || " ++ accStr b ++
+        " (the table row is the witness: an access outside its lock has no instrumented line in its window, so there is no schedule to replay)"
   match Pcore.Lockset.raceWitness Pcore.Generated.locksets with
   | some w => show1 (some w)
   | none =>
